@@ -285,6 +285,21 @@ def run(ck):
         pn = df.operand_expr(rb, t["args"][1])
         ck.require(isinstance(pn, tuple) and pn[0] == "field" and pn[2] == "patch_filename" and (not good_name or pn[1] == name[1]), "C08-R5",
                    "backup filed under the patch that is being undone", "backup directory is %s" % df.show(pn, 80), rb.where(t))
+    # every state obtained by a rollback in the backup loop is written: a conditional skip would keep a later state of a file
+    # that a patch touches through several entries (the last write in reverse order is the one before the first entry)
+    named = [bb for bb, t, c in sb if not df.mentions(df.operand_expr(rb, t["args"][2]), lambda x: df.is_call(x, "::new_filename"))]
+    err_blocks = {b for b, t2 in rb.calls() if t2["dest"]["l"] == 0 and (callee_of(t2).get("path") or "").endswith("from_residual")}
+    for bb, t, c in rcalls:
+        loop = cfg.innermost_loop_of(rb, bb)
+        if not loop:
+            ck.violate("C08-R5", "backup rollback outside a loop", "ModifiedFiles::rollback is not inside the backup loop", rb.where(t))
+            continue
+        r = cfg.reachable(rb, [x for x in rb.succs(bb)], blocked=set(named) | err_blocks)
+        skipped = loop[0] in r or any(b in r for b in cfg.exits(rb))
+        ck.require(bool(named) and not skipped, "C08-R5", "every rolled-back state is written as a backup",
+                   "after ModifiedFiles::rollback the loop can continue without save_backup_file for that file patch: a patch with several "
+                   "entries for one file would keep the state between its entries as 'backup'", rb.where(t),
+                   ok_detail="every path from the rollback to the next iteration crosses save_backup_file")
     # reverse order (shared with C04-R3) and window stop
     c04.r3_lifo(ck, rule="C08-R5")
     # ---- R6
